@@ -8,6 +8,9 @@ All theorems quantify over every script of the looped function, every history of
 `start / advance / fire / fail / stop / reset` operations that satisfies the decidable
 well-formedness predicate `HistOk` (positive or negative — never zero — intervals, advances ≥ 0,
 `start` not issued while the function's Deferred is unfired), and every next operation.
+The last part (`Re-entrancy`) extends them to histories in which callbacks attached to the Deferreds
+returned by `start()` restart / stop / reset the LoopingCall synchronously from inside the firing
+(`HistOkR`, `looping_call_cadence_reentrant`).
 
 `gen_*`: the arithmetic kernels `_intervalOf` and `howLong` are regenerated from task.py on every run
 (`Generated.Looping`, harness/py2lean.py) and proved equal to the model's functions
@@ -1190,5 +1193,811 @@ def startUnrepaired (s : St) (interval : Int) (now : Bool) : St × List Ev :=
 theorem unrepaired_restart_counterexample :
     (startUnrepaired (after true [] [.start 1 true, .stop]) 1 true).2 = [.skip 0] ∧
     (step (after true [] [.start 1 true, .stop]) (.start 1 true)).2 = [.call 0 (some 1)] := by decide
+
+/-! # Re-entrancy: callbacks of start()'s Deferred acting on the LoopingCall from inside the firing
+
+The second half of the model (`stopK … stepK`, `fireStart`, `stepR`, `runR`) transcribes the same code with the
+application's callback on start()'s Deferred run synchronously at the three firing sites.  Below:
+* frame lemmas (the plain operations neither read nor write the waiting callbacks),
+* `stepK_eq_splice` — tail position: the firing is the last effect of every operation,
+* `stepR_flat`, `reentrant_history_is_plain` — every re-entrant history is a well-formed plain history,
+* `looping_call_cadence_reentrant` and the `reentrant_*` theorems — the property over re-entrant histories.
+-/
+
+/-- the same LoopingCall with other callbacks waiting on start()'s Deferred -/
+def withR (s : St) (r : List (List ROp)) (o : Bool) : St := { s with reactions := r, outside := o }
+
+def lift (x : St × List Ev) (r : List (List ROp)) (o : Bool) : St × List Ev := (withR x.1 r o, x.2)
+
+theorem stop_frame (s : St) (r o) : stop (withR s r o) = lift (stop s) r o := by
+  unfold stop lift
+  cases hr : s.running <;> cases hc : s.call <;> simp [withR, hr, hc]
+
+theorem scheduleFrom_frame (s : St) (w : Int) (r o) : scheduleFrom (withR s r o) w = withR (scheduleFrom s w) r o := by
+  simp [scheduleFrom, withR, howLong]
+
+theorem reset_frame (s : St) (r o) : reset (withR s r o) = lift (reset s) r o := by
+  unfold reset lift
+  cases hr : s.running <;> cases hc : s.call <;> simp [withR, hr, hc, scheduleFrom, howLong]
+
+theorem userCall_frame (s : St) (r o) : userCall (withR s r o) = (withR (userCall s).1 r o, (userCall s).2) := by
+  unfold userCall
+  cases hs : s.script with
+  | nil => simp [withR, hs]
+  | cons b t =>
+    cases b <;> simp [withR, hs]
+    all_goals (have := stop_frame { s with script := t } r o; simp [withR, lift] at this; simp [this])
+
+theorem counter_frame (s : St) (r o) : counter (withR s r o) = (withR (counter s).1 r o, (counter s).2) := by
+  unfold counter
+  by_cases h : (s.interval == 0) = true
+  · simp [withR, h]
+  · have hc : intervalOf (withR s r o) (withR s r o).now - intervalOf (withR s r o) (lastTime (withR s r o)) =
+        intervalOf s s.now - intervalOf s (lastTime s) := rfl
+    simp only [hc]
+    have h' : ((withR s r o).interval == 0) = (s.interval == 0) := rfl
+    rw [h']
+    simp only [h]
+    by_cases hlt : intervalOf s s.now - intervalOf s (lastTime s) > 0
+    · simp only [hlt, if_true]; rfl
+    · simp only [hlt, if_false]; rfl
+
+theorem cb_frame (s : St) (r o) : cb (withR s r o) = lift (cb s) r o := by
+  unfold cb lift
+  cases hr : s.running <;> cases hd : s.deferred <;> simp [withR, hr, hd, scheduleFrom, howLong]
+
+theorem eb_frame (s : St) (r o) : eb (withR s r o) = lift (eb s) r o := by
+  unfold eb lift
+  cases hd : s.deferred <;> simp [withR, hd]
+
+theorem finish_frame (s : St) (evs) (res : Res) (r o) : finish (withR s r o) evs res = lift (finish s evs res) r o := by
+  cases res <;> simp [finish, cb_frame, eb_frame, lift]
+
+theorem callOp_frame_r (s : St) (r o) : callOp (withR s r o) = lift (callOp s) r o := by
+  unfold callOp
+  have e1 : ({ withR s r o with call := none } : St) = withR { s with call := none } r o := rfl
+  simp only [e1]
+  have e2 : (withR s r o).withCount = s.withCount := rfl
+  have e3 : (withR s r o).now = s.now := rfl
+  rw [e2, e3]
+  cases hw : s.withCount
+  · simp only [Bool.false_eq_true, if_false]
+    rw [userCall_frame, finish_frame]
+  · simp only [if_true]
+    rw [counter_frame]
+    generalize counter _ = cc
+    obtain ⟨s1, c⟩ := cc
+    cases c with
+    | none => show finish _ _ _ = _; rw [finish_frame]; rfl
+    | some c => show finish _ _ _ = _; rw [userCall_frame, finish_frame]; rfl
+
+theorem start_frame (s : St) (i n) (r o) : start (withR s r o) i n = lift (start s i n) r o := by
+  unfold start
+  have e2 : (withR s r o).running = s.running := rfl
+  rw [e2]
+  cases hr : s.running
+  · simp only [Bool.false_eq_true, if_false]
+    by_cases hi : i < 0
+    · simp [hi, lift]
+    · simp only [hi, if_false]
+      cases n
+      · simp [lift, withR, scheduleFrom, howLong]
+      · simp only [if_true]
+        exact callOp_frame_r (started s i true) r o
+  · simp [lift]
+
+theorem runDue_frame (n : Nat) (s : St) (r o) : runDue n (withR s r o) = lift (runDue n s) r o := by
+  induction n generalizing s with
+  | zero => rfl
+  | succ n ih =>
+    unfold runDue
+    have e : (withR s r o).call = s.call := rfl
+    have e' : (withR s r o).now = s.now := rfl
+    rw [e, e']
+    cases hc : s.call with
+    | none => rfl
+    | some t =>
+      simp only []
+      by_cases h : t ≤ s.now
+      · simp only [h, if_true]
+        rw [callOp_frame_r]
+        simp only [lift]
+        rw [ih]
+        simp [lift]
+      · simp [h, lift]
+
+theorem step_frame (s : St) (op : Op) (r o) : step (withR s r o) op = lift (step s op) r o := by
+  cases op with
+  | start i n => exact start_frame s i n r o
+  | advance a => exact runDue_frame _ { s with now := s.now + a } r o
+  | fire =>
+    simp only [step, fire]
+    have e : (withR s r o).inflight = s.inflight := rfl
+    rw [e]; cases hf : s.inflight
+    · simp [lift]
+    · simp only [if_true]; exact cb_frame { s with inflight := false } r o
+  | fail =>
+    simp only [step, fail]
+    have e : (withR s r o).inflight = s.inflight := rfl
+    rw [e]; cases hf : s.inflight
+    · simp [lift]
+    · simp only [if_true]; exact eb_frame { s with inflight := false } r o
+  | stop => exact stop_frame s r o
+  | reset => exact reset_frame s r o
+
+
+/-- replace a trailing `fired ok` of a plain step by what the continuation does at that point -/
+def splice (k : Cont) (r : St × List Ev) : St × List Ev :=
+  match r.2.getLast? with
+  | some (.fired ok) => ((k r.1 ok).1, r.2.dropLast ++ (k r.1 ok).2)
+  | _ => r
+
+theorem splice_nil (k : Cont) (s : St) : splice k (s, []) = (s, []) := rfl
+
+theorem splice_one_fired (k : Cont) (s : St) (ok : Bool) : splice k (s, [.fired ok]) = k s ok := by
+  simp [splice]
+
+theorem splice_cons (k : Cont) (s : St) (e : Ev) (es : List Ev) (he : isFired e = false) :
+    splice k (s, e :: es) = ((splice k (s, es)).1, e :: (splice k (s, es)).2) := by
+  cases es with
+  | nil => cases e <;> simp [splice, isFired] at *
+  | cons e' t =>
+    unfold splice
+    simp only [List.getLast?_cons_cons, List.dropLast_cons_cons]
+    split <;> simp
+
+theorem splice_cases (k : Cont) (r : St × List Ev) :
+    splice k r = r ∨ ∃ pre ok, r.2 = pre ++ [.fired ok] ∧ splice k r = ((k r.1 ok).1, pre ++ (k r.1 ok).2) := by
+  unfold splice
+  split
+  · rename_i ok h
+    right
+    obtain ⟨ys, hy⟩ := List.getLast?_eq_some_iff.1 h
+    exact ⟨ys, ok, hy, by rw [hy]; simp⟩
+  · left; rfl
+
+theorem stopK_eq (k : Cont) (s : St) : stopK k s = splice k (stop s) := by
+  unfold stopK stop
+  cases hr : s.running <;> cases hc : s.call <;> simp [splice]
+
+theorem userCallK_eq (k : Cont) (s : St) (hc : s.call = none) : userCallK k s = userCall s := by
+  unfold userCallK userCall
+  cases hs : s.script with
+  | nil => rfl
+  | cons b t =>
+    have : stopK k { s with script := t } = stop { s with script := t } := by
+      unfold stopK stop; cases hr : s.running <;> simp [hc]
+    cases b <;> simp [this]
+
+theorem cbK_eq (k : Cont) (s : St) : cbK k s = splice k (cb s) := by
+  unfold cbK cb
+  cases hr : s.running <;> cases hd : s.deferred <;> simp [splice]
+
+theorem ebK_eq (k : Cont) (s : St) : ebK k s = splice k (eb s) := by
+  unfold ebK eb
+  cases hd : s.deferred <;> simp [splice]
+
+theorem finishK_eq (k : Cont) (s : St) (e : Ev) (res : Res) (he : isFired e = false) :
+    finishK k s [e] res = splice k (finish s [e] res) := by
+  cases res with
+  | value =>
+    simp only [finishK, finish, cbK_eq, List.singleton_append]
+    rw [splice_cons k _ e _ he]
+  | failure =>
+    simp only [finishK, finish, ebK_eq, List.singleton_append]
+    rw [splice_cons k _ e _ he]
+  | pending =>
+    simp only [finishK, finish]
+    rw [splice_cons k _ e _ he]; rfl
+
+theorem counter_call (s : St) : (counter s).1.call = s.call := by
+  unfold counter
+  split
+  · rfl
+  · simp only []
+    split <;> rfl
+
+theorem callOpK_eq (k : Cont) (s : St) : callOpK k s = splice k (callOp s) := by
+  unfold callOpK callOp
+  cases hw : s.withCount
+  · simp only [Bool.false_eq_true, if_false]
+    rw [userCallK_eq k _ rfl]
+    exact finishK_eq k _ (Ev.call s.now none) _ rfl
+  · simp only [if_true]
+    have hcc : ∀ x : St, x.call = none → (counter x).1.call = none := fun x hx => by rw [counter_call]; exact hx
+    generalize hg : counter _ = cc
+    have hcc : cc.1.call = none := by rw [← hg]; exact hcc _ rfl
+    obtain ⟨s1, c⟩ := cc
+    cases c with
+    | none => exact finishK_eq k s1 (Ev.skip s1.now) _ rfl
+    | some c =>
+      show finishK k _ _ _ = splice k (finish _ _ _)
+      rw [userCallK_eq k s1 hcc]
+      exact finishK_eq k _ (Ev.call s1.now (some c)) _ rfl
+
+theorem startK_eq (k : Cont) (s : St) (i : Int) (n : Bool) : startK k s i n = splice k (start s i n) := by
+  unfold startK start
+  cases hr : s.running
+  · simp only [Bool.false_eq_true, if_false]
+    by_cases hi : i < 0
+    · simp [hi, splice]
+    · simp only [hi, if_false]
+      cases n
+      · simp [splice]
+      · simp only [if_true]; exact callOpK_eq k _
+  · simp [splice]
+
+theorem fireK_eq (k : Cont) (s : St) : fireK k s = splice k (fire s) := by
+  unfold fireK fire
+  cases hf : s.inflight
+  · simp [splice]
+  · simp only [if_true]; exact cbK_eq k _
+
+theorem failK_eq (k : Cont) (s : St) : failK k s = splice k (fail s) := by
+  unfold failK fail
+  cases hf : s.inflight
+  · simp [splice]
+  · simp only [if_true]; exact ebK_eq k _
+
+/-- the continuation keeps the state invariant (true of `k0` and of every `fireStart n`) -/
+def KGood (k : Cont) : Prop := ∀ s ok, Inv s → Inv (k s ok).1
+
+theorem splice_inv (k : Cont) (hk : KGood k) (r : St × List Ev) (h : Inv r.1) : Inv (splice k r).1 := by
+  rcases splice_cases k r with e | ⟨pre, ok, _, e⟩ <;> rw [e]
+  · exact h
+  · exact hk _ _ h
+
+theorem runDueK_idle (k : Cont) (n : Nat) (s : St) (h : ∀ t, s.call = some t → s.now < t) :
+    runDueK k n s = (s, []) := by
+  cases n with
+  | zero => rfl
+  | succ n =>
+    unfold runDueK
+    cases hc : s.call with
+    | none => rfl
+    | some t =>
+      have := h t hc
+      simp only []
+      rw [if_neg (by omega)]
+
+theorem advanceK_eq (k : Cont) (hk : KGood k) (s : St) (a : Int) (hi : Inv s) (ha : 0 ≤ a) :
+    advanceK k s a = splice k (advance s a) := by
+  by_cases hdue : ∃ t, s.call = some t ∧ t ≤ s.now + a
+  · obtain ⟨t, hc, hdue⟩ := hdue
+    rw [advance_due s a t hi ha hc hdue]
+    have hp := pre_of_due s a t hi ha hc hdue
+    have hi' : Inv (callOpK k (tick s a)).1 := by
+      rw [callOpK_eq]; exact splice_inv k hk _ (callOp_inv _ hp)
+    unfold advanceK advanceFuel
+    show runDueK k 3 (tick s a) = _
+    unfold runDueK
+    have hc' : (tick s a).call = some t := hc
+    rw [hc']
+    simp only []
+    rw [if_pos (by simpa [tick] using hdue)]
+    rw [runDueK_idle k 2 _ (fun t ht => hi'.call_gt ht)]
+    simp [callOpK_eq]
+  · have hidle : ∀ t, s.call = some t → s.now + a < t := by
+      intro t ht
+      by_cases h : t ≤ s.now + a
+      · exact absurd ⟨t, ht, h⟩ hdue
+      · omega
+    rw [advance_idle s a hidle]
+    unfold advanceK
+    rw [runDueK_idle k _ _ hidle]
+    rfl
+
+/-- **Tail position.**  Every operation of the re-entrant transcription is the plain operation with the firing of
+    start()'s Deferred — always its LAST effect — replaced by the continuation: nothing in `stop()`, `cb`, `eb`,
+    `__call__`, `start()` or the `Clock.advance` loop touches the LoopingCall after `d.callback` / `d.errback`
+    returned. -/
+theorem stepK_eq_splice (k : Cont) (hk : KGood k) (s : St) (op : Op) (hi : Inv s) (hok : OpOk s op) :
+    stepK k s op = splice k (step s op) := by
+  cases op with
+  | start i n => exact startK_eq k s i n
+  | advance a => exact advanceK_eq k hk s a hi hok
+  | fire => exact fireK_eq k s
+  | fail => exact failK_eq k s
+  | stop => exact stopK_eq k s
+  | reset =>
+    simp only [stepK, step]
+    unfold reset splice
+    cases hr : s.running <;> cases hc : s.call <;> simp
+
+theorem k0_good : KGood k0 := fun _ _ h => h
+
+/-- with nobody listening the re-entrant transcription IS the plain one -/
+theorem stepK_k0 (s : St) (op : Op) (hi : Inv s) (hok : OpOk s op) : stepK k0 s op = step s op := by
+  rw [stepK_eq_splice k0 k0_good s op hi hok]
+  rcases splice_cases k0 (step s op) with e | ⟨pre, ok, h, e⟩ <;> rw [e]
+  simp only [k0]
+  rw [← h]
+
+
+/-! ## re-entrant histories are plain histories -/
+
+theorem inv_withR (s : St) (r o) (h : Inv s) : Inv (withR s r o) :=
+  ⟨h.ipos, h.idef, h.icall, h.irun, h.ist, h.ilast⟩
+
+theorem withR_withR (s : St) (r o r' o') : withR (withR s r o) r' o' = withR s r' o' := rfl
+theorem withR_self (s : St) : withR s s.reactions s.outside = s := rfl
+
+theorem run_frame (s : St) (ops : List Op) (r o) :
+    run (withR s r o) ops = (withR (run s ops).1 r o, (run s ops).2) := by
+  induction ops generalizing s with
+  | nil => rfl
+  | cons op ops ih =>
+    simp only [run]
+    rw [step_frame]
+    simp only [lift]
+    rw [ih]
+
+theorem opOk_frame (s : St) (op : Op) (r o) : OpOk (withR s r o) op ↔ OpOk s op := by
+  cases op <;> exact Iff.rfl
+
+theorem histOk_frame (s : St) (ops : List Op) (r o) : HistOk (withR s r o) ops ↔ HistOk s ops := by
+  induction ops generalizing s with
+  | nil => exact Iff.rfl
+  | cons op ops ih =>
+    simp only [HistOk]
+    rw [step_frame, opOk_frame]
+    simp only [lift]
+    rw [ih]
+
+theorem run_append (s : St) (a b : List Op) :
+    run s (a ++ b) = ((run (run s a).1 b).1, (run s a).2 ++ (run (run s a).1 b).2) := by
+  induction a generalizing s with
+  | nil => rfl
+  | cons op a ih =>
+    simp only [List.cons_append, run]
+    rw [ih]
+
+theorem histOk_append (s : St) (a b : List Op) :
+    HistOk s (a ++ b) ↔ HistOk s a ∧ HistOk (run s a).1 b := by
+  induction a generalizing s with
+  | nil => simp [HistOk, run]
+  | cons op a ih =>
+    simp only [List.cons_append, HistOk, run]
+    rw [ih, and_assoc]
+
+/-- `x` (a state and the events that led to it from `s`) is what some well-formed PLAIN history produces from `s`,
+    up to the callbacks still waiting -/
+def Flat (s : St) (x : St × List Ev) : Prop :=
+  ∃ ops r o, HistOk s ops ∧ x = (withR (run s ops).1 r o, (run s ops).2.flatten)
+
+theorem Flat.frame {s : St} {r o} {x} (h : Flat (withR s r o) x) : Flat s x := by
+  obtain ⟨ops, r', o', h1, h2⟩ := h
+  refine ⟨ops, r', o', (histOk_frame s ops r o).1 h1, ?_⟩
+  rw [h2, run_frame]; rfl
+
+theorem Flat.nil (s : St) (r o) : Flat s (withR s r o, []) := ⟨[], r, o, trivial, rfl⟩
+
+theorem Flat.one (s : St) (op : Op) (hok : OpOk s op) : Flat s (step s op) :=
+  ⟨[op], (step s op).1.reactions, (step s op).1.outside, ⟨hok, trivial⟩, by simp [run]; rfl⟩
+
+theorem Flat.seq {s : St} {x y : St × List Ev} (hx : Flat s x) (hy : Flat x.1 y) : Flat s (y.1, x.2 ++ y.2) := by
+  obtain ⟨a, r, o, ha, ea⟩ := hx
+  rw [ea] at hy
+  obtain ⟨b, r', o', hb, eb⟩ := Flat.frame hy
+  refine ⟨a ++ b, r', o', (histOk_append s a b).2 ⟨ha, hb⟩, ?_⟩
+  rw [run_append, ea, eb]
+  simp
+
+theorem Flat.inv {s : St} {x} (hi : Inv s) (h : Flat s x) : Inv x.1 := by
+  obtain ⟨ops, r, o, h1, h2⟩ := h
+  rw [h2]
+  exact inv_withR _ _ _ (run_inv s ops hi h1)
+
+/-- what the theorems need of a continuation: it keeps the invariant, and what it does is a plain history -/
+def KFlat (k : Cont) : Prop :=
+  ∀ s ok, Inv s → ∃ x, Flat s x ∧ k s ok = (x.1, .fired ok :: x.2)
+
+theorem KFlat.good {k : Cont} (h : KFlat k) : KGood k := by
+  intro s ok hi
+  obtain ⟨x, hx, e⟩ := h s ok hi
+  rw [e]; exact (Flat.inv hi hx : Inv x.1)
+
+theorem stepK_flat (k : Cont) (hk : KFlat k) (s : St) (op : Op) (hi : Inv s) (hok : OpOk s op) :
+    Flat s (stepK k s op) := by
+  rw [stepK_eq_splice k hk.good s op hi hok]
+  rcases splice_cases k (step s op) with e | ⟨pre, ok, h, e⟩ <;> rw [e]
+  · exact Flat.one s op hok
+  · obtain ⟨x, hx, ek⟩ := hk (step s op).1 ok (step_inv s op hi hok)
+    rw [ek]
+    have := Flat.seq (Flat.one s op hok) hx
+    rw [h] at this
+    simpa using this
+
+/-- … a plain history that BEGINS with `op` -/
+def FlatFrom (s : St) (op : Op) (x : St × List Ev) : Prop :=
+  ∃ more r o, HistOk s (op :: more) ∧ x = (withR (run s (op :: more)).1 r o, (run s (op :: more)).2.flatten)
+
+theorem FlatFrom.frame {s : St} {op : Op} {r o} {x} (h : FlatFrom (withR s r o) op x) : FlatFrom s op x := by
+  obtain ⟨ops, r', o', h1, h2⟩ := h
+  refine ⟨ops, r', o', (histOk_frame s _ r o).1 h1, ?_⟩
+  rw [h2, run_frame]; rfl
+
+theorem flatFrom_after_step (s : St) (op : Op) (hok : OpOk s op) (y : St × List Ev) (hy : Flat (step s op).1 y) :
+    FlatFrom s op (y.1, (step s op).2 ++ y.2) := by
+  obtain ⟨b, r, o, hb, eb⟩ := hy
+  refine ⟨b, r, o, ⟨hok, hb⟩, ?_⟩
+  rw [eb]; simp [run]
+
+theorem stepK_flatFrom (k : Cont) (hk : KFlat k) (s : St) (op : Op) (hi : Inv s) (hok : OpOk s op) :
+    FlatFrom s op (stepK k s op) := by
+  rw [stepK_eq_splice k hk.good s op hi hok]
+  rcases splice_cases k (step s op) with e | ⟨pre, ok, h, e⟩ <;> rw [e]
+  · have := flatFrom_after_step s op hok _ (Flat.nil (step s op).1 (step s op).1.reactions (step s op).1.outside)
+    simpa [withR_self] using this
+  · obtain ⟨x, hx, ek⟩ := hk (step s op).1 ok (step_inv s op hi hok)
+    rw [ek]
+    have := flatFrom_after_step s op hok x hx
+    rw [h] at this
+    simpa using this
+
+theorem rop_ok (s : St) (r : ROp) (h : r.ok s = true) : OpOk s r.toOp := by
+  cases r with
+  | start i n =>
+    simp [ROp.ok] at h
+    exact ⟨h.1, h.2⟩
+  | stop => trivial
+  | reset => trivial
+
+theorem runReaction_flat (f : St → Op → St × List Ev)
+    (hf : ∀ s op, Inv s → OpOk s op → Flat s (f s op)) (s : St) (rs : List ROp) (hi : Inv s) :
+    Flat s (runReaction f s rs) := by
+  induction rs generalizing s with
+  | nil => exact Flat.nil s s.reactions s.outside
+  | cons r rs ih =>
+    unfold runReaction
+    by_cases h : r.ok s = true
+    · rw [if_pos h]
+      have h1 := hf s r.toOp hi (rop_ok s r h)
+      have h2 := ih (f s r.toOp).1 (h1.inv hi)
+      exact Flat.seq h1 h2
+    · rw [if_neg h]
+      exact Flat.frame (ih (withR s s.reactions true) (inv_withR _ _ _ hi))
+
+theorem fireStart_flat (n : Nat) : KFlat (fireStart n) := by
+  induction n with
+  | zero => intro s ok _; exact ⟨(s, []), Flat.nil s s.reactions s.outside, rfl⟩
+  | succ n ih =>
+    intro s ok hi
+    unfold fireStart
+    cases hr : s.reactions with
+    | nil => exact ⟨(s, []), Flat.nil s s.reactions s.outside, rfl⟩
+    | cons r rs =>
+      refine ⟨runReaction (stepK (fireStart n)) (withR s rs s.outside) r, ?_, rfl⟩
+      exact Flat.frame (runReaction_flat _ (fun s op => stepK_flat _ ih s op) _ r (inv_withR _ _ _ hi))
+
+/-- **One re-entrant operation = a plain history.**  A top-level operation whose firing(s) of start()'s Deferred
+    run the application's callbacks synchronously (restarting, stopping, resetting the loop from inside
+    `d.callback`, nested to any depth) ends in the state, and produces the events, of a well-formed plain history
+    that begins with the same operation. -/
+theorem stepR_flat (s : St) (op : Op) (hi : Inv s) (hok : OpOk s op) : Flat s (stepR s op) :=
+  stepK_flat _ (fireStart_flat _) s op hi hok
+
+theorem stepR_inv (s : St) (op : Op) (hi : Inv s) (hok : OpOk s op) : Inv (stepR s op).1 :=
+  (stepR_flat s op hi hok).inv hi
+
+/-! ## the property over re-entrant histories -/
+
+/-- well-formedness of a history whose firings run the application's callbacks: the same decidable condition on
+    every top-level operation (a `start` made by a callback with interval 0 or while the function's Deferred is
+    unfired is skipped and recorded in `St.outside`) -/
+def HistOkR : St → List Op → Prop
+  | _, [] => True
+  | s, op :: ops => OpOk s op ∧ HistOkR (stepR s op).1 ops
+
+instance : ∀ (s : St) (ops : List Op), Decidable (HistOkR s ops)
+  | _, [] => isTrue trivial
+  | s, op :: ops => by
+    unfold HistOkR
+    have := instDecidableHistOkR (stepR s op).1 ops
+    infer_instance
+
+/-- the state after a re-entrant history on a fresh LoopingCall whose start() Deferreds carry the callbacks `reacts` -/
+def afterR (wc : Bool) (script : List Beh) (reacts : List (List ROp)) (ops : List Op) : St :=
+  (runR (initR wc script reacts) ops).1
+
+theorem runR_flat (s : St) (ops : List Op) (hi : Inv s) (h : HistOkR s ops) :
+    Flat s ((runR s ops).1, (runR s ops).2.flatten) := by
+  induction ops generalizing s with
+  | nil => exact Flat.nil s s.reactions s.outside
+  | cons op ops ih =>
+    obtain ⟨h1, h2⟩ := h
+    have f1 := stepR_flat s op hi h1
+    have f2 := ih (stepR s op).1 (f1.inv hi) h2
+    have := Flat.seq f1 f2
+    simpa [runR] using this
+
+theorem runR_inv (s : St) (ops : List Op) (hi : Inv s) (h : HistOkR s ops) : Inv (runR s ops).1 :=
+  (runR_flat s ops hi h).inv hi
+
+theorem afterR_inv (wc : Bool) (script : List Beh) (reacts : List (List ROp)) (ops : List Op)
+    (h : HistOkR (initR wc script reacts) ops) : Inv (afterR wc script reacts ops) :=
+  runR_inv _ _ (inv_withR (init wc script) reacts false (init_inv wc script)) h
+
+/-- **Re-entrant histories are plain histories.**  Whatever the callbacks of start()'s Deferreds do to the
+    LoopingCall from inside the firing (restart, stop, reset; nested), the state reached and the events observed
+    are those of a well-formed history of the plain operations, in which every operation a callback made follows
+    the operation whose firing ran it. -/
+theorem reentrant_history_is_plain (wc : Bool) (script : List Beh) (reacts : List (List ROp)) (ops : List Op)
+    (h : HistOkR (initR wc script reacts) ops) :
+    ∃ ops' r o, HistOk (init wc script) ops' ∧
+      afterR wc script reacts ops = withR (after wc script ops') r o ∧
+      (runR (initR wc script reacts) ops).2.flatten = (run (init wc script) ops').2.flatten := by
+  have hf : Flat (withR (init wc script) reacts false) _ :=
+    runR_flat (initR wc script reacts) ops (inv_withR (init wc script) reacts false (init_inv wc script)) h
+  obtain ⟨ops', r, o, h1, h2⟩ := Flat.frame hf
+  refine ⟨ops', r, o, h1, ?_, ?_⟩
+  · exact congrArg Prod.fst h2
+  · exact congrArg Prod.snd h2
+
+theorem histOk_prefix (s : St) (a b : List Op) (h : HistOk s (a ++ b)) : HistOk s a :=
+  ((histOk_append s a b).1 h).1
+
+theorem histOk_opOk (s : St) (a : List Op) (o : Op) (b : List Op) (h : HistOk s (a ++ o :: b)) :
+    OpOk (run s a).1 o := ((histOk_append s a (o :: b)).1 h).2.1
+
+/-- the conclusion of `looping_call_cadence` for the operation `op` made after the plain history `ops` -/
+def Headline (wc : Bool) (script : List Beh) (ops : List Op) (op : Op) : Prop :=
+    ((after wc script ops).inflight = true → ∀ e ∈ (step (after wc script ops) op).2, isCall e = false) ∧
+    callsOf (step (after wc script ops) op).2 ≤ 1 ∧
+    (∀ t, (after wc script ops).call = some t →
+        t = nextBoundary (after wc script ops).starttime (after wc script ops).interval (after wc script ops).now ∧
+        (after wc script ops).now < t) ∧
+    ((after wc script ops).running = true → (after wc script ops).inflight = false →
+        (after wc script ops).call.isSome = true) ∧
+    (∀ e ∈ (step (after wc script ops) op).2, isSkip e = false) ∧
+    (tally wc script ops).fires = (if (tally wc script ops).begun && !((after wc script ops).running || (after wc script ops).inflight) then 1 else 0)
+
+/-- **Headline over re-entrant histories.**  For every script of the looped function, every script of callbacks on
+    start()'s Deferreds, every well-formed re-entrant history and every next operation `op`: the history so far is a
+    well-formed plain history `ops'`; the next operation, callbacks included, is the plain history `op :: more`
+    continued from there (same events, same final state); and EVERY plain step of it — the operation itself and
+    each operation a callback made, at whatever nesting depth — satisfies the headline: no overlap, at most one
+    call, the pending call on the first boundary after the current time, withCount never swallows a call, and the
+    Deferred of the LATEST effective `start()` (also one made from inside the previous Deferred's callback) has
+    fired at most once — exactly once when that run is over. -/
+theorem looping_call_cadence_reentrant (wc : Bool) (script : List Beh) (reacts : List (List ROp)) (ops : List Op)
+    (op : Op) (h : HistOkR (initR wc script reacts) ops) (hop : OpOk (afterR wc script reacts ops) op) :
+    ∃ ops' more r o r' o',
+      HistOk (init wc script) (ops' ++ op :: more) ∧
+      afterR wc script reacts ops = withR (after wc script ops') r o ∧
+      (stepR (afterR wc script reacts ops) op).1 = withR (after wc script (ops' ++ op :: more)) r' o' ∧
+      (stepR (afterR wc script reacts ops) op).2 = (run (after wc script ops') (op :: more)).2.flatten ∧
+      ∀ pre o post, op :: more = pre ++ o :: post → Headline wc script (ops' ++ pre) o := by
+  obtain ⟨ops', r, o, h1, h2, _⟩ := reentrant_history_is_plain wc script reacts ops h
+  have hi := after_inv wc script ops' h1
+  rw [h2] at hop ⊢
+  have hop' : OpOk (after wc script ops') op := (opOk_frame _ op r o).1 hop
+  obtain ⟨more, r', o', m1, m2⟩ :=
+    FlatFrom.frame (stepK_flatFrom _ (fireStart_flat _) _ op (inv_withR _ r o hi) hop)
+  have m2 : stepR (withR (after wc script ops') r o) op = _ := m2
+  have hall : HistOk (init wc script) (ops' ++ op :: more) := (histOk_append _ ops' _).2 ⟨h1, m1⟩
+  refine ⟨ops', more, r, o, r', o', hall, rfl, ?_, ?_, ?_⟩
+  · rw [m2]
+    show withR _ r' o' = withR (run (init wc script) (ops' ++ op :: more)).1 r' o'
+    rw [run_append]; rfl
+  · rw [m2]
+  · intro pre o1 post e
+    rw [e, ← List.append_assoc] at hall
+    exact looping_call_cadence wc script (ops' ++ pre) o1 (histOk_prefix _ _ _ hall) (histOk_opOk _ _ _ _ hall)
+
+theorem fireStart_head (n : Nat) (s : St) (ok : Bool) : ∃ tl, (fireStart n s ok).2 = .fired ok :: tl := by
+  cases n with
+  | zero => exact ⟨[], rfl⟩
+  | succ n =>
+    unfold fireStart
+    cases s.reactions with
+    | nil => exact ⟨[], rfl⟩
+    | cons r rs => exact ⟨_, rfl⟩
+
+/-- **Cadence over re-entrant histories**: as `next_call_on_first_boundary_after_completion`, for a loop that may
+    have been (re)started from inside a callback of the previous run's start() Deferred. -/
+theorem reentrant_next_call_on_first_boundary (wc : Bool) (script : List Beh) (reacts : List (List ROp))
+    (ops : List Op) (h : HistOkR (initR wc script reacts) ops)
+    (hr : (afterR wc script reacts ops).running = true) (hf : (afterR wc script reacts ops).inflight = false) :
+    ∃ t, (afterR wc script reacts ops).call = some t ∧
+      t = nextBoundary (afterR wc script reacts ops).starttime (afterR wc script reacts ops).interval
+            (afterR wc script reacts ops).now ∧
+      (afterR wc script reacts ops).now < t ∧
+      t - (afterR wc script reacts ops).interval ≤ (afterR wc script reacts ops).now ∧
+      ∀ k : Int, (afterR wc script reacts ops).now <
+          (afterR wc script reacts ops).starttime + k * (afterR wc script reacts ops).interval →
+        t ≤ (afterR wc script reacts ops).starttime + k * (afterR wc script reacts ops).interval := by
+  have hinv := afterR_inv wc script reacts ops h
+  generalize afterR wc script reacts ops = s at *
+  have hd : s.deferred = true := by rw [hinv.idef, hr]; rfl
+  have hI := hinv.ipos hd
+  have hs := hinv.irun hr hf
+  cases hc : s.call with
+  | none => simp [hc] at hs
+  | some t =>
+    obtain ⟨_, _, he⟩ := hinv.icall t hc
+    refine ⟨t, rfl, he, ?_, ?_, ?_⟩
+    · rw [he]; exact nextBoundary_gt _ _ _ hI
+    · rw [he]; exact nextBoundary_sub_le _ _ _ hI
+    · intro k hk; rw [he]; exact nextBoundary_first _ _ _ k hI hk
+
+/-- **stop() ends a run however it was started.**  After any re-entrant history in which the loop is running —
+    in particular when this run was started from inside a callback of the PREVIOUS run's start() Deferred, while
+    that Deferred was being fired by `stop()`, `cb` or `eb` — `stop()` does not raise and this run's own Deferred
+    fires: at once (first event of the operation, before its callback acts) when no invocation is in flight;
+    otherwise when the invocation's Deferred settles, with callback or errback accordingly. -/
+theorem reentrant_stop_fires_deferred (wc : Bool) (script : List Beh) (reacts : List (List ROp)) (ops : List Op)
+    (h : HistOkR (initR wc script reacts) ops) (hr : (afterR wc script reacts ops).running = true) :
+    ((afterR wc script reacts ops).inflight = false →
+      ∃ tl, (stepR (afterR wc script reacts ops) .stop).2 = .fired true :: tl) ∧
+    ((afterR wc script reacts ops).inflight = true →
+      (stepR (afterR wc script reacts ops) .stop).2 = [] ∧
+      (∃ tl, (stepR (stepR (afterR wc script reacts ops) .stop).1 .fire).2 = .fired true :: tl) ∧
+      (∃ tl, (stepR (stepR (afterR wc script reacts ops) .stop).1 .fail).2 = .fired false :: tl)) := by
+  have hinv := afterR_inv wc script reacts ops h
+  generalize afterR wc script reacts ops = s at *
+  have hd : s.deferred = true := by rw [hinv.idef, hr]; rfl
+  constructor
+  · intro hf
+    have := hinv.irun hr hf
+    cases hc : s.call with
+    | none => simp [hc] at this
+    | some t =>
+      have e : stepR s .stop = fireStart s.reactions.length { s with running := false, call := none, deferred := false } true := by
+        simp [stepR, stepK, stopK, hr, hc]
+      rw [e]; exact fireStart_head _ _ _
+  · intro hf
+    have hc : s.call = none := by
+      cases hc : s.call with
+      | none => rfl
+      | some t => have := (hinv.icall t hc).2.1; rw [hf] at this; cases this
+    have e : stepR s .stop = ({ s with running := false }, []) := by simp [stepR, stepK, stopK, hr, hc]
+    rw [e]
+    refine ⟨rfl, ?_, ?_⟩
+    · have e2 : stepR { s with running := false } .fire =
+          fireStart s.reactions.length { s with running := false, inflight := false, deferred := false } true := by
+        simp [stepR, stepK, fireK, cbK, hf, hd]
+      rw [e2]; exact fireStart_head _ _ _
+    · have e2 : stepR { s with running := false } .fail =
+          fireStart s.reactions.length { s with running := false, inflight := false, deferred := false } false := by
+        simp [stepR, stepK, failK, ebK, hf, hd]
+      rw [e2]; exact fireStart_head _ _ _
+
+/-- **A failure ends a run however it was started**: the errback of the in-flight Deferred fires this run's start()
+    Deferred with the failure, first thing. -/
+theorem reentrant_failure_fires_deferred (wc : Bool) (script : List Beh) (reacts : List (List ROp)) (ops : List Op)
+    (h : HistOkR (initR wc script reacts) ops) (hf : (afterR wc script reacts ops).inflight = true) :
+    ∃ tl, (stepR (afterR wc script reacts ops) .fail).2 = .fired false :: tl := by
+  have hinv := afterR_inv wc script reacts ops h
+  generalize afterR wc script reacts ops = s at *
+  have hd : s.deferred = true := by rw [hinv.idef, hf]; simp
+  have e2 : stepR s .fail =
+      fireStart s.reactions.length { s with running := false, inflight := false, deferred := false } false := by
+    simp [stepR, stepK, failK, ebK, hf, hd]
+  rw [e2]; exact fireStart_head _ _ _
+
+/-! ### non-vacuity: the restart-on-failure and restart-on-stop patterns -/
+
+/-- f fails on its second call; the errback of start()'s Deferred restarts the loop (interval 1, no immediate call)
+    from inside the firing; the restarted loop keeps cadence and its own Deferred fires when it is stopped -/
+def reOps : List Op := [.start 2 true, .advance 2, .advance 1, .advance 1, .stop, .advance 3]
+
+example : HistOkR (initR false [.ret, .raise] [[.start 1 false]]) reOps := by decide
+example : (runR (initR false [.ret, .raise] [[.start 1 false]]) reOps).2 =
+    [[.call 0 none], [.call 2 none, .fired false], [.call 3 none], [.call 4 none], [.fired true], []] := by decide
+-- the same events and state as the plain history with the restart written out after the failing advance
+example : (run (init false [.ret, .raise]) [.start 2 true, .advance 2, .start 1 false, .advance 1, .advance 1, .stop, .advance 3]).2 =
+    [[.call 0 none], [.call 2 none, .fired false], [], [.call 3 none], [.call 4 none], [.fired true], []] := by decide
+/-- stop() while the call's Deferred is unfired; its callback restarts with an immediate call (withCount); then the
+    restarted run fails: nested firing, second callback does nothing -/
+example : (runR (initR true [.ret, .defer, .ret, .ret, .raise] [[.start 4 true], []])
+      [.start 2 true, .advance 2, .advance 1, .stop, .advance 1, .fire, .advance 4, .advance 4, .advance 9]).2 =
+    [[.call 0 (some 1)], [.call 2 (some 1)], [], [], [], [.fired true, .call 4 (some 1)], [.call 8 (some 1)],
+     [.call 12 (some 1), .fired false], []] := by decide
+/-- a chain of restarts inside one operation: every restarted run fails in its immediate call -/
+example : (runR (initR false [.raise, .raise, .raise, .ret] [[.start 2 true], [.start 3 true], [.start 5 true]])
+      [.start 1 true, .advance 5, .stop]).2 =
+    [[.call 0 none, .fired false, .call 0 none, .fired false, .call 0 none, .fired false, .call 0 none],
+     [.call 5 none], [.fired true]] := by decide
+/-- a callback that restarts while the function's Deferred is unfired leaves the histories considered -/
+example : (runR (initR false [.stopDefer, .defer] [[.start 1 true, .stop, .start 1 true]])
+      [.start 1 true, .fire]).1.outside = true := by decide
+
+/-! ### fuel of `fireStart` -/
+
+theorem step_reactions (s : St) (op : Op) : (step s op).1.reactions = s.reactions := by
+  have h := congrArg (fun x => x.1.reactions) (step_frame s op s.reactions s.outside)
+  exact h
+
+/-- two continuations agree on every invariant state with at most `L` callbacks waiting, and do not add callbacks -/
+def KAgree (L : Nat) (k k' : Cont) : Prop :=
+  ∀ s ok, Inv s → s.reactions.length ≤ L → k s ok = k' s ok ∧ (k s ok).1.reactions.length ≤ s.reactions.length
+
+theorem stepK_agree (L : Nat) (k k' : Cont) (hk : KGood k) (hk' : KGood k') (ha : KAgree L k k')
+    (s : St) (op : Op) (hi : Inv s) (hok : OpOk s op) (hl : s.reactions.length ≤ L) :
+    stepK k s op = stepK k' s op ∧ (stepK k s op).1.reactions.length ≤ s.reactions.length := by
+  rw [stepK_eq_splice k hk s op hi hok, stepK_eq_splice k' hk' s op hi hok]
+  have hi' := step_inv s op hi hok
+  have hr := step_reactions s op
+  unfold splice
+  cases hgl : (step s op).2.getLast? with
+  | none => simp [hr]
+  | some e =>
+    cases e with
+    | fired ok =>
+      simp only []
+      obtain ⟨h1, h2⟩ := ha _ ok hi' (by rw [hr]; exact hl)
+      rw [← h1]
+      exact ⟨rfl, by rw [hr] at h2; exact h2⟩
+    | _ => simp [hr]
+
+theorem runReaction_agree (L : Nat) (k k' : Cont) (hk : KGood k) (hk' : KGood k') (ha : KAgree L k k')
+    (s : St) (rs : List ROp) (hi : Inv s) (hl : s.reactions.length ≤ L) :
+    runReaction (stepK k) s rs = runReaction (stepK k') s rs ∧
+    (runReaction (stepK k) s rs).1.reactions.length ≤ s.reactions.length := by
+  induction rs generalizing s with
+  | nil => exact ⟨rfl, Nat.le_refl _⟩
+  | cons r rs ih =>
+    unfold runReaction
+    by_cases h : r.ok s = true
+    · simp only [h, if_true]
+      obtain ⟨e1, l1⟩ := stepK_agree L k k' hk hk' ha s r.toOp hi (rop_ok s r h) hl
+      have hi1 : Inv (stepK k s r.toOp).1 := by
+        rw [stepK_eq_splice k hk s _ hi (rop_ok s r h)]
+        exact splice_inv k hk _ (step_inv s _ hi (rop_ok s r h))
+      obtain ⟨e2, l2⟩ := ih (stepK k s r.toOp).1 hi1 (Nat.le_trans l1 hl)
+      rw [← e1, ← e2]
+      exact ⟨rfl, Nat.le_trans l2 l1⟩
+    · simp only [h]
+      exact ih (withR s s.reactions true) (inv_withR _ _ _ hi) hl
+
+/-- **Fuel.**  `fireStart` needs one unit of fuel per nested firing; any amount ≥ the number of callbacks waiting gives
+    the same result (`stepR` passes exactly that number), and firing never adds callbacks. -/
+theorem fireStart_fuel (n m : Nat) : KAgree (min n m) (fireStart n) (fireStart m) := by
+  induction n generalizing m with
+  | zero =>
+    intro s ok _ hl
+    have : s.reactions = [] := List.eq_nil_of_length_eq_zero (by omega)
+    cases m <;> simp [fireStart, this]
+  | succ n ih =>
+    intro s ok hi hl
+    cases m with
+    | zero =>
+      have : s.reactions = [] := List.eq_nil_of_length_eq_zero (by omega)
+      simp [fireStart, this]
+    | succ m =>
+      unfold fireStart
+      cases hr : s.reactions with
+      | nil => simp [hr]
+      | cons r rs =>
+        simp only []
+        rw [hr] at hl
+        have hl' : rs.length ≤ min n m := by simp at hl ⊢; omega
+        obtain ⟨e, l⟩ := runReaction_agree (min n m) _ _ (fireStart_flat n).good (fireStart_flat m).good (ih m)
+          (withR s rs s.outside) r (inv_withR _ _ _ hi) hl'
+        have e' : runReaction (stepK (fireStart n)) { s with reactions := rs } r =
+            runReaction (stepK (fireStart m)) { s with reactions := rs } r := e
+        rw [e']
+        refine ⟨rfl, ?_⟩
+        have l' : (runReaction (stepK (fireStart n)) { s with reactions := rs } r).1.reactions.length ≤ rs.length := l
+        rw [e'] at l'
+        simp; omega
+
+
+/-- Why the order matters (the variant `eb` that fires start()'s Deferred FIRST and forgets it AFTERWARDS — not
+    what task.py does): a callback restarting the loop from inside the firing has the new run's Deferred wiped; the
+    loop runs on with no Deferred to fire (`running ∧ ¬deferred`, excluded by `Inv.idef`), so `stop()` trips over
+    `assert d is not None`.  The transcription of the real order keeps it. -/
+def ebFireThenClear (k : Cont) (s : St) : St × List Ev :=
+  let s := { s with running := false }
+  if s.deferred then ({ (k s false).1 with deferred := false }, (k s false).2) else (s, [.assertion])
+
+theorem fire_then_clear_counterexample :
+    (ebFireThenClear (fireStart 1)
+        { afterR false [.defer] [[.start 1 false]] [.start 2 true] with inflight := false }).1.running = true ∧
+    (ebFireThenClear (fireStart 1)
+        { afterR false [.defer] [[.start 1 false]] [.start 2 true] with inflight := false }).1.deferred = false ∧
+    (stepR (afterR false [.defer] [[.start 1 false]] [.start 2 true]) .fail).1.running = true ∧
+    (stepR (afterR false [.defer] [[.start 1 false]] [.start 2 true]) .fail).1.deferred = true := by decide
 
 end TwistedProps.C10
